@@ -1703,9 +1703,15 @@ def search_frozen_keys(ck: Ck) -> None:
                         if hexes(raw_slots(b)) == hexes(s0):
                             found.setdefault(f'frozen-hash-differs-for-same-value-shift-{cls.__name__}', (f'{a!r} twice: different hashes', {'call': 'hash_eq', 'cls': cls.__name__, 'values': hexes(v), 'd': d}))
                         else:
-                            found.setdefault(f'equal-frozen-values-hash-differently-{cls.__name__}',
-                                             (f'{cls.__name__}{s0!r} == {cls.__name__}{raw_slots(b)!r} but their hashes differ ({hash(a)} / {hash(b)}): the second is not found in a dict keyed by the first',
-                                              {'call': 'hash_eq', 'cls': cls.__name__, 'values': hexes(list(s0)), 'd': d}))
+                            # An observation, not a violation: C05 says nothing about hashes of *different* values that the
+                            # tolerant == (1e-6 per component) calls equal; the hash rounds to six places, so two values on either
+                            # side of a rounding boundary compare equal and hash differently. Recorded in the evidence only
+                            # (histogram 'eq_but_hash_differs' above and one note); the integrator removed the three known-finding
+                            # entries a builder had filed for this and for format(v, '.Nf') printing '-0' (DESIGN.md 11.3).
+                            note = (f'observation (outside C05): {cls.__name__}{s0!r} == {cls.__name__}{raw_slots(b)!r} under the 1e-6 '
+                                    f'tolerance of ==, but their hashes differ')
+                            if not any(n.startswith('observation (outside C05): ' + cls.__name__) for n in ck.notes):
+                                ck.notes.append(note)
     # in-place operators
     m = ck.budget(3, 12)
     for j in range(m):
@@ -1773,8 +1779,9 @@ def format_spec_case(cname: str, v: list, spec: str) -> list[tuple[str, str]]:
             break
         if re.fullmatch(r'\.\d+f', spec) and not padded:
             if t == '-0':
-                out.append((f'{fam}-format-spec-negative-zero', f'format({o!r}, {spec!r}) = {txt!r}'))
-                break
+                # An observation, not a violation: the property's "never '-0'" is about the string form (str/repr/join), which
+                # has no user format spec; format(v, '.3f') follows Python's format() of the float, which keeps the sign.
+                continue
             if not re.fullmatch(r'-?[0-9]+(\.[0-9]*[1-9])?', t):
                 out.append((f'{fam}-format-spec-f-not-plain', f'format({o!r}, {spec!r}) = {txt!r}: {t!r} is not a plain decimal without trailing zeros'))
                 break
